@@ -196,7 +196,8 @@ theorem c16_only_wiring_errors (d : Diagram) (H : Nat → Option Handler)
       value (two sources), a module with outputs but no handler, or an input port with neither a wire nor an
       external value: `execute` raises before any handler is invoked (a WiringError when every wire joins
       existing ports);
-    * a cycle in the wire graph (self-loops included): `execute` raises;
+    * a cycle in the wire graph (self-loops included): `execute` raises — a WiringError when every wire joins
+      existing ports and no handler raises or returns a non-mapping — and no module on the cycle is ever invoked;
     and by `c16_only_wiring_errors` the loop always terminates, by `c16_no_partially_wired_module_runs` nothing
     partially wired ever ran, by `c16_every_call_after_its_feeders` nothing ran before a module feeding it. -/
 theorem c16_unschedulable_raises_no_loop (d : Diagram) (hwf : d.WF) (H : Nat → Option Handler)
@@ -208,7 +209,11 @@ theorem c16_unschedulable_raises_no_loop (d : Diagram) (hwf : d.WF) (H : Nat →
         ∀ ins, (m.name, ins) ∈ ext → pp.1 ∉ keys ins)) →
       ∃ e, (execute d H ext enforce).out = .error e ∧ (execute d H ext enforce).calls = [] ∧
         (d.WiresExist → e.isWiringError = true)) ∧
-    ((∃ a, d.Reaches a a) → ∃ e, (execute d H ext enforce).out = .error e) := by
+    (∀ a, d.Reaches a a →
+      (∃ e, (execute d H ext enforce).out = .error e ∧
+        (d.WiresExist → (∀ n hd ins, H n = some hd → hd ins ≠ .raise ∧ hd ins ≠ .nondict) →
+          e.isWiringError = true)) ∧
+      (d.WiresExist → a ∉ (execute d H ext enforce).calls.map (·.name))) := by
   constructor
   · intro hcase
     have key : ∀ mi, extPhase d ext (fun _ => []) = .ok mi → preflight d H mi ≠ none := by
@@ -237,9 +242,10 @@ theorem c16_unschedulable_raises_no_loop (d : Diagram) (hwf : d.WF) (H : Nat →
     rcases hk with hk | ⟨-, hne⟩
     · exact hk
     · exact absurd hex hne
-  · rintro ⟨a, ha⟩
+  · intro a ha
+    refine ⟨?_, fun hex => cycle_never_called hwf hex ha⟩
     cases h : (execute d H ext enforce).out with
-    | error e => exact ⟨e, rfl⟩
+    | error e => exact ⟨e, rfl, (c16_only_wiring_errors d H ext enforce e h).2⟩
     | ok recs =>
       have := reaches_idx (fun w hw => ((execute_ok_facts hwf h).2 w hw).2.2) ha
       omega
@@ -256,6 +262,32 @@ theorem c16_every_call_after_its_feeders (d : Diagram) (hwf : d.WF) (hex : d.Wir
     ∀ pre c post, (execute d H ext enforce).calls = pre ++ c :: post →
       ∀ w ∈ d.wires, w.dstM = c.name → ∃ s ∈ pre, FedBy d H w s c :=
   execute_callsAfter hwf hex
+
+/-- Duplicate sources never get as far as a delivery: no run of any diagram, with any handlers and external
+    inputs, ends in the executor's per-delivery "Multiple values for input" error — two wires into one port, and
+    a wire plus an external value, are both refused by the pre-flight checks, before any handler is invoked
+    (`c16_unschedulable_raises_no_loop`).  The guard in the delivery loop is unreachable. -/
+theorem c16_duplicate_sources_never_reach_delivery (d : Diagram) (H : Nat → Option Handler)
+    (ext : List (Nat × List (Nat × Val))) (enforce : Bool) :
+    (execute d H ext enforce).out ≠ .error .multipleValues :=
+  execute_ne_mv
+
+/-- The dicts of a registered `ModuleSpec` can be edited in place after `add_module` and after `connect`
+    (the dataclass is frozen, its dicts are not): ports relabelled, retyped, removed, added.  Whatever sequence
+    of such edits was made, the wires stay as they were, and with `enforce_static_checks` on (the default) every
+    value recorded on an input port of a successful run, and every value any handler was shown in any run, has
+    the data type and at least the integrity that the port declares NOW — a wire that `connect` once accepted
+    and that the edited declarations no longer allow is stopped at run time. -/
+theorem c16_edited_specs_still_checked (d : Diagram) (hwf : d.WF) (edits : List (Nat × SpecEdit))
+    (H : Nat → Option Handler) (ext : List (Nat × List (Nat × Val))) :
+    (d.editAll edits).wires = d.wires ∧
+    (∀ recs, (execute (d.editAll edits) H ext true).out = .ok recs → ∀ r ∈ recs, ∃ m,
+      (d.editAll edits).findMod r.name = some m ∧
+      ∀ pv ∈ r.inputs, ∃ pt, m.inputs.lookup pv.1 = some pt ∧ pv.2.fits pt) ∧
+    (∀ c ∈ (execute (d.editAll edits) H ext true).calls, ∃ m, (d.editAll edits).findMod c.name = some m ∧
+      ∀ pv ∈ c.inputs, ∃ pt, m.inputs.lookup pv.1 = some pt ∧ pv.2.fits pt) :=
+  ⟨editAll_wires d edits,
+   c16_delivered_values_typed (d.editAll edits) (editAll_wf hwf edits) H ext true (Or.inl rfl)⟩
 
 /-- Liveness, the converse of `c16_unschedulable_raises_no_loop`: if the external inputs are valid, the
     pre-flight checks pass (unique wire per port, a handler for every module with outputs, a source for every
@@ -452,6 +484,30 @@ private def exRawH : Nat → Option Handler := fun n => if n = 0 then some (fun 
 example : view (execute exRaw exRawH [] true) = (some .wireIntegrity, [], [], [0]) ∧
     view (execute exRaw exRawH [] false) = (none, [0, 1], [[], [(0, ⟨0, 0, 1⟩)]], [0]) :=
   ⟨by decide, by decide⟩
+
+/-- an in-place edit after `connect`: module 1's input port 0 now asks for TRUSTED data of type 0 while module
+    0's output is only declared VALIDATED (after a second edit).  The wires are unchanged, the edited diagram is
+    no longer `Accepted`, and the run stops at the wire (`c16_edited_specs_still_checked`); without enforcement
+    the value goes through. -/
+private def exEdits : List (Nat × SpecEdit) := [(0, .setOut 0 ⟨0, 1⟩), (1, .setIn 0 ⟨0, 2⟩)]
+
+example : (exD.editAll exEdits).wires = exD.wires ∧ ¬ (exD.editAll exEdits).Accepted := by
+  refine ⟨rfl, fun h => ?_⟩
+  obtain ⟨s, t, hs, ht, -, h2⟩ := h ⟨0, 0, 1, 0⟩ (by decide)
+  have hs' : (exD.editAll exEdits).outPort 0 0 = some ⟨0, 1⟩ := by decide
+  have ht' : (exD.editAll exEdits).inPort 1 0 = some ⟨0, 2⟩ := by decide
+  rw [hs'] at hs; rw [ht'] at ht
+  cases hs; cases ht
+  simp at h2
+
+example : view (execute (exD.editAll exEdits) exH exExt true) = (some .wireIntegrity, [], [], [0]) ∧
+    view (execute (exD.editAll exEdits) exH exExt false) =
+      (none, [0, 1, 2], [[], [(0, ⟨0, 1, 5⟩)], [(1, ⟨0, 2, 8⟩), (0, ⟨1, 1, 6⟩)]], [0, 1]) :=
+  ⟨by decide, by decide⟩
+
+/-- a handler that returns a list instead of a dict: the AttributeError case of `c16_only_wiring_errors` -/
+example : view (execute exD (fun n => if n = 1 then some (fun _ => .nondict) else exH n) exExt true) =
+    (some .attributeError, [], [], [0, 1]) := by decide
 
 /-- the hypotheses of `c16_schedulable_diagram_runs` are met by the example diagram -/
 example : ∃ mi, extPhase exD exExt (fun _ => []) = .ok mi ∧ Schedulable exD exH mi := by
